@@ -52,7 +52,7 @@ class C18(Check):
             'non-trivial = counts with a transfer / non-epilogue exclusion / more than one round')
     assumptions = ['bounded election sizes', 'report text is parsed by its line labels ("Action:", "\\tElected:", "\\tHopeful votes:" ...): a wording change of the labels would need the parser updated',
                    '"status" for "names a candidate whose status changes" includes the pending flag; for "every status change is listed" only hopeful->elected/defeated (pending winners are finalised silently by design)']
-    budget = {'quick': 115, 'thorough': 2400}
+    budget = {'quick': 240, 'thorough': 3000}
 
     def cases(self, tier):
         D = configs.DEFAULTS
